@@ -28,6 +28,8 @@ package enc
 //@   loop 0: invariant 0 <= i && i <= len(s) && extra == cnt(old(string(s)), valid, i)
 //@   loop 1: invariant 0 <= i && i <= len(s) && j == i + cnt(old(string(s)), valid, i) && len(buf) == len(s) + cnt(old(string(s)), valid, len(s))
 //@   loop 1: invariant forall(k, 0, i, encAt(string(buf), k + cnt(old(string(s)), valid, k), old(s[k]), valid(old(s[k]))))
+//@   loop 0: decreases len(s) - i
+//@   loop 1: decreases len(s) - i
 
 //@ spec ishex(b byte) bool = ('0' <= b && b <= '9') || ('a' <= b && b <= 'f') || ('A' <= b && b <= 'F')
 //@ spec hexval(b byte) int = ite(b <= '9', b - '0', ite(b >= 'a', b - 'a' + 10, b - 'A' + 10))
@@ -47,6 +49,7 @@ package enc
 //@   overflow
 //@   behaviour safety:
 //@     loop 0: invariant 0 <= j && j <= i && i <= len(s) && len(buf) == len(s)
+//@     loop 0: decreases len(s) - i
 //@   behaviour inverse(ghost orig string, ghost v bytepred):
 //@     requires isEsc(s, orig, v) && !v('\\')
 //@     ensures  string(result) == orig
@@ -55,6 +58,7 @@ package enc
 //@     loop 0: invariant i < len(s) ==> encAt(s, i, orig[j], v(orig[j]))
 //@     loop 0: invariant forall(k, 0, j, buf[k] == orig[k])
 //@     loop 0: invariant forall(k, j, len(s), buf[k] == s[k])
+//@     loop 0: decreases len(s) - i
 
 //@ # ---- identifiers --------------------------------------------------------
 //@ # intail: LLVM's identifier characters [-a-zA-Z$._0-9]; inquoted: bytes printed verbatim inside "..."
@@ -76,6 +80,8 @@ package enc
 //@   loop 0: invariant replace ==> exists(k, 0, i, !intail(s[k])) || (len(s) > 0 && '0' <= s[0] && s[0] <= '9')
 //@   loop 1: invariant 0 <= i && i <= len(s) && j == i + cnt(s, quotedPred(), i) && len(buf) == len(s) + cnt(s, quotedPred(), len(s))
 //@   loop 1: invariant forall(k, 0, i, encAt(string(buf), k + cnt(s, quotedPred(), k), s[k], inquoted(s[k])))
+//@   loop 0: decreases len(s) - i
+//@   loop 1: decreases len(s) - i
 
 //@ # ---- LLVM's reading of identifier tokens (assumption A7: transcription of LLLexer) ----
 //@ # after the sigil, a name is either a quoted string or [-a-zA-Z$._][-a-zA-Z$._0-9]*; [0-9]+ is an unnamed ID
@@ -111,6 +117,7 @@ package enc
 //@   props C11
 //@   ensures result == alldigits(s)
 //@   loop 0: invariant 0 <= i && i <= len(s) && len(s) >= 1 && forall(k, 0, i, '0' <= s[k] && s[k] <= '9')
+//@   loop 0: decreases len(s) - i
 //@ # numeric type names are type IDs (%2); every other type name is lexed like a local name
 //@ func TypeName
 //@   props C11
